@@ -1,14 +1,19 @@
 package pnet
 
 import (
+	"bytes"
 	"encoding/json"
 	"fmt"
 	"os"
 	"sort"
+	"strings"
+	"sync"
 	"testing"
 	"time"
 
 	"go.sia.tech/coreutils/syncer"
+	"go.uber.org/zap"
+	"go.uber.org/zap/zapcore"
 	"pgregory.net/rapid"
 
 	"verif/kit"
@@ -492,3 +497,79 @@ var c12Prop = kit.Prop[C12Case]{
 }
 
 func TestC12(t *testing.T) { c12Prop.Main(t) }
+
+type lockedBuf struct {
+	mu  sync.Mutex
+	buf bytes.Buffer
+}
+
+func (b *lockedBuf) Write(p []byte) (int, error) {
+	b.mu.Lock()
+	defer b.mu.Unlock()
+	return b.buf.Write(p)
+}
+
+func (b *lockedBuf) String() string {
+	b.mu.Lock()
+	defer b.mu.Unlock()
+	return b.buf.String()
+}
+
+// TestC12KnownMaxSendBlocks is the demonstrator of known finding F-C12-1: a
+// node built with WithMaxSendBlocks(10) holds 30 blocks; a fresh node connected
+// to it asks for all 30 in one request (parallelSync always asks for up to 100),
+// gets 10, rejects the answer ("peer returned wrong number of blocks") and
+// retries for ever. The bounded wait decides only whether the KNOWN-FINDING
+// line is printed, never a verdict.
+func TestC12KnownMaxSendBlocks(t *testing.T) {
+	var blocks []kit.BlockSpec
+	for i := 0; i < 30; i++ {
+		blocks = append(blocks, kit.BlockSpec{Dt: 1})
+	}
+	tr := kit.BuildTree(kit.TreeCase{Net: kit.NetSpec{Maturity: 1, Allow: 2, ReqOff: 2, CutOff: 2}, Blocks: blocks})
+	tip := tr.Nodes[len(tr.Nodes)-1]
+	if !tip.Valid() {
+		t.Fatalf("INFRA: demonstrator chain invalid: %v", tip.Err)
+	}
+	srcNode, err := p2px.NewChainNode(tr, tip, 0)
+	if err != nil {
+		t.Fatalf("INFRA: %v", err)
+	}
+	defer srcNode.Close()
+	dstNode, err := p2px.NewChainNode(tr, nil, 0)
+	if err != nil {
+		t.Fatalf("INFRA: %v", err)
+	}
+	defer dstNode.Close()
+	logs := &lockedBuf{}
+	enc := zapcore.NewJSONEncoder(zapcore.EncoderConfig{MessageKey: "msg"})
+	lg := zap.New(zapcore.NewCore(enc, zapcore.AddSync(logs), zapcore.DebugLevel))
+	base := []syncer.Option{syncer.WithSyncInterval(netSyncInterval), syncer.WithPeerDiscoveryInterval(time.Hour)}
+	src, err := p2px.StartSyncer(srcNode, p2px.NodeConfig{Name: "src", IP: p2px.ListenIP(0), UID: p2px.DetUniqueID("c12k-src"), Opts: append([]syncer.Option{syncer.WithMaxSendBlocks(10)}, base...)})
+	if err != nil {
+		t.Fatalf("INFRA: %v", err)
+	}
+	defer src.Close(closeWatchdog)
+	dst, err := p2px.StartSyncer(dstNode, p2px.NodeConfig{Name: "dst", IP: p2px.ListenIP(1), UID: p2px.DetUniqueID("c12k-dst"), Opts: append([]syncer.Option{syncer.WithLogger(lg)}, base...)})
+	if err != nil {
+		t.Fatalf("INFRA: %v", err)
+	}
+	defer dst.Close(closeWatchdog)
+	if err := dst.Connect(src, 10*time.Second); err != nil {
+		t.Fatalf("INFRA: connect: %v", err)
+	}
+	deadline := time.Now().Add(8 * time.Second)
+	for time.Now().Before(deadline) && dstNode.CM.Tip() != tip.Index() {
+		time.Sleep(100 * time.Millisecond)
+		src.Announce(true)
+	}
+	rejected := strings.Count(logs.String(), "peer returned wrong number of blocks")
+	switch {
+	case dstNode.CM.Tip() == tip.Index():
+		fmt.Println("KNOWN-GONE F-C12-1")
+	case rejected > 0:
+		fmt.Printf("KNOWN-REPRODUCED F-C12-1: after 8 s the fresh node is at height %d of %d; it rejected %d answer(s) of the WithMaxSendBlocks(10) peer with \"peer returned wrong number of blocks\"\n", dstNode.CM.Tip().Height, tip.Height, rejected)
+	default:
+		fmt.Printf("KNOWN-GONE F-C12-1 (not synced after 8 s, but no short-answer rejection was logged: height %d of %d)\n", dstNode.CM.Tip().Height, tip.Height)
+	}
+}
